@@ -4,4 +4,5 @@ From Sccache Require Import Base.Sx Model.ArgTypes Model.Args Gen.C01ArgTables.
 Definition the_tables : tables := {|
   t_gcc := gcc_args; t_clang := clang_args; t_main_dest := main_dest; t_x_dest := xclang_dest;
   t_xlang := x_lang_table; t_ext := ext_lang_table; t_lang_gcc := language_to_gcc_arg;
-  t_lang_clang := language_to_clang_arg; t_arch_flag := arch_flag; t_expand_limit := expand_limit |}.
+  t_lang_clang := language_to_clang_arg; t_arch_flag := arch_flag; t_expand_limit := expand_limit;
+  t_rsp_literal := rsp_literal_chars |}.
